@@ -12,6 +12,11 @@ pub const CAP: usize = 12;
 
 static mut SYMBOLIC_ORDER: bool = false;
 static mut CONST_HASH: bool = false;
+static mut ORDER_MODE: u8 = 0;
+/// Harness switch: `HashSet::into_iter` yields its elements in a fixed alternative order: 0 = slot order, 1 = reversed,
+/// 2 = rotated left, 3 = rotated right, 4 = first two swapped, 5 = last two swapped (for sets of up to three elements these
+/// are all six permutations). The harness picks the mode by a solver-chosen case split, so each arm stays concrete.
+pub fn set_order_mode(m: u8) { unsafe { ORDER_MODE = m; } }
 /// Harness switch: make `HashSet::into_iter` order solver-chosen.
 pub fn set_symbolic_order(on: bool) { unsafe { SYMBOLIC_ORDER = on; } }
 /// Harness switch: all keys hash to the same value (forces every lookup to rely on `Eq`).
@@ -176,7 +181,27 @@ impl<T, S> IntoIterator for HashSet<T, S> {
     let mut e = self.m.e;
     let mut used = self.m.used;
     if unsafe { SYMBOLIC_ORDER } { permute(&mut e, &mut used); }
+    let mode = unsafe { ORDER_MODE };
+    if mode != 0 { reorder(&mut e, &mut used, mode); }
     SetIntoIter { e, used, i: 0 }
+  }
+}
+/// Compacts the used entries to the front (keeping slot order) and then applies the fixed permutation `mode`.
+fn reorder<X>(e: &mut [Option<X>; CAP], used: &mut [bool; CAP], mode: u8) {
+  // compaction
+  let mut n = 0;
+  let mut i = 0;
+  while i < CAP {
+    if used[i] { if i != n { e.swap(i, n); used[i] = false; used[n] = true; } n += 1; }
+    i += 1;
+  }
+  if n < 2 { return; }
+  match mode {
+    1 => { let mut a = 0; let mut b = n - 1; while a < b { e.swap(a, b); a += 1; b -= 1; } }
+    2 => { let mut a = 0; while a + 1 < n { e.swap(a, a + 1); a += 1; } }
+    3 => { let mut a = n - 1; while a > 0 { e.swap(a, a - 1); a -= 1; } }
+    4 => { e.swap(0, 1); }
+    _ => { e.swap(n - 2, n - 1); }
   }
 }
 /// Applies a solver-chosen permutation (sequence of CAP-1 guarded adjacent... full: a chosen sequence of swaps).
